@@ -438,6 +438,8 @@ pub fn shake128_finalize(state: &mut KeccakState) {
 /// Can be called multiple times to keep squeezing.
 /// Assumes new block has not yet been started (state->pos = SHAKE128_RATE).
 pub fn shake128_squeezeblocks(output: &mut [u8], nblocks: usize, s: &mut KeccakState) {
+    #[cfg(feature = "verif-hooks")]
+    if crate::verif_hooks::xof_tap(output, nblocks, SHAKE128_RATE) { return; }
     keccak_squeezeblocks(output, nblocks, &mut s.s, SHAKE128_RATE);
 }
 
@@ -468,6 +470,8 @@ pub fn shake256_absorb_once(state: &mut KeccakState, input: &[u8], inlen: usize)
 /// Can be called multiple times to keep squeezing.
 /// Assumes next block has not yet been started (state.pos = SHAKE256_RATE).
 pub fn shake256_squeezeblocks(out: &mut [u8], nblocks: usize, state: &mut KeccakState) {
+    #[cfg(feature = "verif-hooks")]
+    if crate::verif_hooks::xof_tap(out, nblocks, SHAKE256_RATE) { return; }
     keccak_squeezeblocks(out, nblocks, &mut state.s, SHAKE256_RATE);
 }
 
